@@ -129,8 +129,17 @@ static mut CASE_BUF: [u8; 1024] = [0; 1024];
 static CASE_LEN: AtomicUsize = AtomicUsize::new(0);
 
 pub const CRASH_EXIT: i32 = 77;
+static ECHO: AtomicUsize = AtomicUsize::new(0);
+
+pub fn set_echo(on: bool) {
+    ECHO.store(on as usize, Ordering::Relaxed);
+}
 
 pub fn announce(case: &str) {
+    if ECHO.load(Ordering::Relaxed) != 0 {
+        // external monitors (Miri, ASan) abort the process: the last echoed case is the culprit
+        eprintln!("GLAMSIM-CASE {case}");
+    }
     let b = case.as_bytes();
     let n = b.len().min(1024);
     unsafe {
@@ -157,9 +166,12 @@ extern "C" fn on_fault(sig: libc::c_int) {
 }
 
 pub fn install_crash_monitor() {
+    if cfg!(miri) {
+        return;
+    }
     unsafe {
         let mut sa: libc::sigaction = core::mem::zeroed();
-        sa.sa_sigaction = on_fault as usize;
+        sa.sa_sigaction = on_fault as *const () as usize;
         libc::sigemptyset(&mut sa.sa_mask);
         libc::sigaction(libc::SIGSEGV, &sa, core::ptr::null_mut());
         libc::sigaction(libc::SIGBUS, &sa, core::ptr::null_mut());
